@@ -426,3 +426,77 @@ func Lucas(k int, seed uint64) []byte {
 	}
 	return out
 }
+
+// DeepToken builds input whose single block has BOTH Huffman trees at or near the 15-bit limit and ends in one match
+// token with the maximal number of bits: about 13500 four-byte copies separated by two fresh literals each (one block: at most 32767 tokens), whose
+// distances fall into fifteen distance symbols with counts growing by the factor 1.75 (every count clearly larger
+// than the sum of the two before it: the distance tree is a chain 14 deep, with a margin for a few matches the
+// finder misses); a chain of rarer and rarer longer copies (the literal/length tree reaches its 15-bit codes); and as
+// the last match a copy of 240 bytes (length symbol 284: 5 extra bits) at a distance of the rarest class, both
+// symbols occurring once: code + extra bits of the length and the code of the distance exceed 32 bits. tail fresh
+// literals follow it.
+func DeepToken(tail int, seed uint64) []byte {
+	r := newRng(seed ^ 0xdee9)
+	var out []byte
+	var lit []bool // lit[i]: byte i is a fresh literal; a 4-byte window that holds one is unique in the data
+	rnd := func(n int) {
+		for i := 0; i < n; i++ {
+			out = append(out, byte(r.next()>>11))
+			lit = append(lit, true)
+		}
+	}
+	rnd(1100)
+	type cp struct{ l, dlo, dhi int }
+	var copies []cp
+	// distance symbols 18 (513..768, kept for the last match), 17, 16, ..., 4 (5..6)
+	dlo := []int{385, 257, 193, 129, 97, 65, 49, 33, 25, 17, 13, 9, 7, 5}
+	dhi := []int{512, 384, 256, 192, 128, 96, 64, 48, 32, 24, 16, 12, 8, 6}
+	// counts per class, rarest first: a factor above 2 while the counts are small (a handful of matches that the
+	// finder attributes to another class must not reorder the tree), 1.75 from there on
+	counts := []int{1, 3, 8, 20, 45, 80, 136, 231, 393, 668, 1136, 1931, 3283, 5581}
+	for s := range dlo {
+		for j := 0; j < counts[s]; j++ {
+			copies = append(copies, cp{4, dlo[s], dhi[s]})
+		}
+	}
+	f := 1.0
+	for _, l := range []int{200, 170, 140, 110, 90, 60, 40, 25, 14, 8, 6} {
+		for j := 0; j < int(f+0.5); j++ {
+			copies = append(copies, cp{l, 5, 6}) // overlapping copies in the most frequent distance class
+		}
+		f *= 1.75
+	}
+	for i := len(copies) - 1; i > 0; i-- {
+		j := int(r.next() % uint64(i+1))
+		copies[i], copies[j] = copies[j], copies[i]
+	}
+	emit := func(l, dlo, dhi int) {
+		// a source whose first four bytes hold a fresh literal: no other occurrence of them can be nearer
+		d := 0
+		for try := 0; try < 400 && d == 0; try++ {
+			cand := dlo + int(r.next()%uint64(dhi-dlo+1))
+			st := len(out) - cand
+			for i := 0; i < 4 && i < cand; i++ {
+				if lit[st+i] {
+					d = cand
+				}
+			}
+		}
+		if d == 0 {
+			d = dlo
+		}
+		st := len(out) - d
+		for i := 0; i < l; i++ {
+			out = append(out, out[st+i])
+			lit = append(lit, false)
+		}
+	}
+	for _, c := range copies {
+		emit(c.l, c.dlo, c.dhi)
+		rnd(2)
+	}
+	rnd(800)
+	emit(240, 513, 768) // the last match: length symbol 284, distance symbol 18, each for the only time
+	rnd(tail)
+	return out
+}
